@@ -1122,6 +1122,10 @@ func (broker *Broker) startTrack(wg *sync.WaitGroup) {
 				// If the Q is still not empty, don't block when looking for a
 				// new payload to receive
 				wait = time.After(time.Second)
+			} else if in == nil {
+				// The last files were just handed over and nothing more can
+				// arrive; blocking below would never end
+				return
 			}
 		}
 		payload = nil
